@@ -9,7 +9,7 @@ RULE = ("real MemoryBackend driven operation by operation with bare clients, com
         "closing publisher (will during a takeover: own session skipped), QoS 0/1/2, temporary and stored, retained flag set, observers; "
         "(failedsetup) a Setup that fails by kill timeout or is refused while the backend closes, then the failed newcomer's Terminate, the "
         "displaced connection's Terminate and a further Setup with the id in all 6 orders, clean/unclean mixed; (sizes) payloads of 0,1,127,128,16383,16384,65535,65536,70001 bytes live, retained and replayed; (retained) every name pair x every filter x QoS pairs with delete (at every QoS) and "
-        "non-retained publishes, then resubscription; (samepayload) the same payload republished on a topic with another QoS / without the flag / after a delete; (manyretained) 24 retained topics replayed by r/+, r/# and r/+/x; (exhaustive) every sequence of depth %s over a %s-operation alphabet "
+        "non-retained publishes, then resubscription; (samepayload) the same payload republished on a topic with another QoS / without the flag / after a delete; (resumeleftover) a persistent session resumed (reconnect / takeover) with 2-4 messages left in its temporary queue; (manyretained) 24 retained topics replayed by r/+, r/# and r/+/x; (exhaustive) every sequence of depth %s over a %s-operation alphabet "
         "(subscribe, unsubscribe, unsubscribe whose acknowledgement callback publishes, publish retained/empty/plain, dequeue, terminate, "
         "resume, clean takeover) after a fixed two-client prefix, "
         "queue size 2; (random) seeded histories of 5..%s operations over 1-6 clients, ids {'',x,y,z}, queue sizes 1,2,3,100, SUBSCRIBE with "
